@@ -52,6 +52,8 @@ def gen(rng, tier):
     eps = None
     if rng.random() < 0.4 and outs:
         eps = rng.sample(outs, rng.randint(1, len(outs)))
+    elif rng.random() < 0.05:
+        eps = []          # the empty endpoint subset: nothing is selected, so nothing can be sensitized
     if eps and len(picks) < 3 and rng.random() < 0.6:
         # several nodes analysed against the same endpoint selection; nodes whose cone reaches only some of them
         picks += rng.sample(names, min(len(names), 2))
@@ -164,6 +166,16 @@ def run(case, ctx):
             if abs(avg - want_avg) > 1e-9:
                 ctx.violate("C11.avg_sensitivity", f"avg_sensitivity({n}) = {avg}, expected {want_avg}", sig)
             multi_expect[n] = ({s: ref.popcount(difs[s]) / (1 << k) for s in sp}, want_avg)
+    # ---- the list form with a single node (either the flat or the per-node shape is accepted)
+    if len(multi_expect) == 1:
+        (n1, (wi, wa)), = multi_expect.items()
+        ctx.probe("influence_list_of_one")
+        sig1 = {"list_form": "one"}
+        a1 = ctx.call("C11.avg_sensitivity_raises", sig1, cg.props.avg_sensitivity, c, [n1], approx=False)
+        if isinstance(a1, dict):
+            a1 = a1.get(n1)
+        if not isinstance(a1, (int, float)) or abs(a1 - wa) > 1e-9:
+            ctx.violate("C11.avg_sensitivity", f"avg_sensitivity([{n1}]) = {a1!r}, expected {wa}", sig1)
     # ---- the list form of influence / avg_sensitivity (several nodes in one call)
     if len(multi_expect) >= 2:
         ns = sorted(multi_expect)
@@ -189,7 +201,26 @@ def run(case, ctx):
         ctx.log("sensitize", n, None if res is None else sorted(res.items()))
         if res is not None:
             ctx.violate("C11.sensitize_wrong", f"sensitize({n}) returned {res} for a circuit without any endpoint", sig)
-    if n in nodes and outs:
+    if n in nodes and outs and case["endpoints"] is not None and len(case["endpoints"]) == 0:
+        ctx.probe("empty_endpoint_subset")
+        sig = {"n_is_input": nodes[n][0] == "input", "n_is_output": bool(nodes[n][2]), "endpoints": "empty"}
+        try:
+            ctx.warm(cg.tx.sensitization_transform, c, n, endpoints=[])
+            m = cg.tx.sensitization_transform(c, n, endpoints=[])
+        except ValueError:
+            m = None          # a refusal is fine: n is not in the fan-in of the (no) selected endpoints
+        except Exception as e:
+            ctx.violate("C11.sensitization_transform_raises", f"sensitization_transform({n}, endpoints=[]) raised "
+                        f"{type(e).__name__}: {e}", dict(sig, exc=type(e).__name__))
+        if m is not None:
+            ms = ref.snapshot(m)
+            fr = ref.free_nodes(ms)
+            if len(fr) <= 10:
+                tm, _, _ = ref.truth_tables(ms, fr)
+                if tm.get("sat") != 0:
+                    ctx.violate("C11.sens_sat", f"sensitization_transform({n}, endpoints=[]): no endpoint is selected but "
+                                f"'sat' can be 1, e.g. under {ref.witness(tm.get('sat', 0), 0, fr)}", sig)
+    elif n in nodes and outs:
         eps = case["endpoints"]
         sig = {"n_is_input": nodes[n][0] == "input", "n_is_output": bool(nodes[n][2]), "endpoints": bool(eps)}
         if eps:
